@@ -28,6 +28,9 @@ CLAIMED = {
  'C17': dict(
    text="Static facts decided by both compilers for all 92 quantity classes x float/double/long double (generated static_asserts: sizeof == N*sizeof(T) with N fixed by the shape of the base class, alignof, trivially copyable, standard layout); proof for all inputs (CBMC contracts with frames): Zero() has every component +0 exactly; Value()/MutableValue()/SetValue() of each base class and Set_*/Mutable_* of the tensor classes read, alias and write exactly the stored slot and nothing else.",
    ref="DESIGN.md 5 C17", note="Layout facts are compiler-decided static facts, not CBMC proofs. Accessor contracts are proved on one instantiation per base class template (the members are inherited unchanged)."),
+ 'C04': dict(
+   text="Proof for all finite binary64 operands (thorough: binary32): every component-wise operator instance discovered from the instantiated classes (~1190: quantity op quantity, quantity op number, number * quantity, tensor kernels) returns in each slot exactly the IEEE result of (left slot) op (right slot) in written order; every compound assignment leaves old(a) op b and writes nothing but a (so any interleaving equals the chain of pure operators by induction); every constructor with an operator twin stores the identical value (CBMC contract per function, cvc5 back end).",
+   ref="DESIGN.md 5 C04", note="NaN results unconstrained. Operator instances that are not component-wise (matrix-vector products, thermal strain) belong to C09/C18 and are listed in the evidence. std:: math overloads for dimensionless scalars are not yet under contract. x87 long double has no bit-precise obligation."),
 }
 REASONS = {'C19': "static-initialisation order is a property of the compilers' start-up schedule, not of any function's pre/postcondition; CBMC has no model of C++ dynamic initialisation and contracts cannot express it (DESIGN.md 6)"}
 checks = []
